@@ -48,6 +48,12 @@ Sites ==
   \cup {[key |-> <<"method", mm>>, n |-> 3] : mm \in StrM2}
   \cup {[key |-> <<"global", f>>, n |-> 1] : f \in {"shout", "typeof", "to_string"}}
   \cup {[key |-> <<"interp", "placeholder">>, n |-> 1]}
+  \* fewer arguments than the method takes (the resolver cannot count them on a dynamic receiver)
+  \cup {[key |-> <<"method-missing-arg", mm>>, n |-> 1] : mm \in StrM1 \cup {"push", "join"}}
+  \cup {[key |-> <<"method-missing-arg", mm>>, n |-> 2] : mm \in StrM2}
+  \cup {[key |-> <<"member", mm>>, n |-> 1] : mm \in {"len", "pop", "abs"}}
+  \* index targets whose base is a call result
+  \cup {[key |-> <<"temporary-target", w>>, n |-> 1] : w \in {"store", "push", "nested-store"}}
 
 \* d = sequence of operand expressions (dynamic); ids start at `id`
 Use(site, d, id) ==
@@ -63,6 +69,16 @@ Use(site, d, id) ==
          ELSE <<[k |-> "seti", id |-> id, n |-> d[1].a.n, site |-> 0, is |-> <<d[1].i, d[2]>>, e |-> Num(8)], Shout(id + 1, d[1])>>
     [] k1 = "method" -> <<Shout(id, M(d[1], k2, SubSeq(d, 2, Len(d))))>>
     [] k1 = "global" -> <<Shout(id, G(k2, <<d[1]>>))>>
+    [] k1 = "method-missing-arg" -> <<Shout(id, M(d[1], k2, SubSeq(d, 2, Len(d))))>>
+    [] k1 = "member" -> <<Shout(id, [k |-> "member", o |-> d[1], m |-> k2])>>
+    [] k1 = "temporary-target" ->
+         \* h() returns [[operand]]; the target is rooted at the call
+         <<[k |-> "def", id |-> id, d |-> 10 * id, n |-> "h", site |-> 0, ps |-> <<>>, pd |-> <<>>, psites |-> <<>>,
+            b |-> <<Ret(id + 1, [k |-> "arr", es |-> <<[k |-> "arr", es |-> <<d[1]>>]>>])>>],
+           (CASE k2 = "store" -> [k |-> "setx", id |-> id + 2, t |-> Idx(G("h", <<>>), Num(0)), e |-> Num(8)]
+              [] k2 = "nested-store" -> [k |-> "setx", id |-> id + 2, t |-> Idx(Idx(G("h", <<>>), Num(0)), Num(0)), e |-> Num(8)]
+              [] k2 = "push" -> ExprS(id + 2, M(Idx(G("h", <<>>), Num(0)), "push", <<Num(8)>>))),
+           Shout(id + 3, Num(4))>>
     [] k1 = "interp" ->
          IF d[1].k = "var" THEN <<Shout(id, [k |-> "str", segs |-> <<[k |-> "lit", v |-> <<60>>], [k |-> "var", n |-> d[1].n, site |-> 0]>>])>>
          ELSE <<Make(id, "w", d[1]), Shout(id + 1, [k |-> "str", segs |-> <<[k |-> "lit", v |-> <<60>>], [k |-> "var", n |-> "w", site |-> 0]>>])>>
